@@ -198,7 +198,18 @@ def check_case(c):
                         res.bad("output-file-not-compressed", "%s: compressed=True but %s has no BN_ keywords" % (
                             what, os.path.basename(fn)), **tags)
                         continue
-                    ex = np.asarray(fits_tools.expand(fn)[0].data, dtype=np.float64)
+                    exh = fits_tools.expand(fn)
+                    ex = np.asarray(exh[0].data, dtype=np.float64)
+                    # ... and describes the same sky as the image: expanding restores the image's WCS keywords (both files:
+                    # each must be compressed from its own copy of the header)
+                    h_in, h_ex = fits.getheader(path), exh[0].header
+                    for k in ("CRPIX1", "CRPIX2", "CDELT1", "CDELT2", "CRVAL1", "CRVAL2"):
+                        a_, b_ = float(h_in[k]), float(h_ex.get(k, float("nan")))
+                        t_ = 1e-9 + 1e-12 * abs(a_) if k.startswith("CRPIX") else 1e-12 * abs(a_)
+                        if not abs(a_ - b_) <= t_:
+                            res.bad("compressed-file-wcs", "%s: %s expands to %s = %r, the image has %r" % (
+                                what, os.path.basename(fn), k, b_, a_), **tags)
+                            break
                     if ex.shape != arr.shape:
                         res.bad("output-file-shape", "%s: expanded %s has shape %r, the map %r" % (
                             what, os.path.basename(fn), ex.shape, arr.shape), **tags)
